@@ -93,6 +93,54 @@ def check_function(fn_node):
     return findings
 
 
+def _int_consts(node):
+    out = []
+    for n in ast.walk(node):
+        if isinstance(n, ast.Constant) and isinstance(n.value, int) and not isinstance(n.value, bool):
+            out.append(n.value)
+    return out
+
+
+def check_constant_patterns(fn_node):
+    """COPY-2: in a family of >= 3 parallel statements the order relations between the integer constants at
+    corresponding positions (index pairs such as [1]*[0] - [0]*[1]) agree; a single member that reverses a
+    relation all the others share has its operands swapped (a sign error in a hand-written cross product)."""
+    findings = []
+    for block in _blocks(fn_node):
+        simple = [s for s in block if isinstance(s, (ast.Assign, ast.AugAssign))]
+        shapes = {}
+        for s in simple:
+            shapes.setdefault(_shape(s), []).append(s)
+        for group in shapes.values():
+            if len(group) < 3:
+                continue
+            consts = [_int_consts(s) for s in group]
+            n = len(consts[0])
+            if n < 2 or any(len(c) != n for c in consts):
+                continue
+            # only the antisymmetric component pattern  a[i]*b[j] - a[j]*b[i]  (hand-written cross products)
+            if n != 4 or not all(c[0] == c[3] and c[1] == c[2] and c[0] != c[1] for c in consts):
+                continue
+            if not all(isinstance(getattr(s_, "value", None), ast.BinOp) and isinstance(s_.value.op, ast.Sub) for s_ in group):
+                continue
+            # identifiers must be the same in all members up to the assigned name (a pure index family)
+            for i in range(n):
+                for j in range(i + 1, n):
+                    rel = [(c[i] > c[j]) - (c[i] < c[j]) for c in consts]
+                    for k, r in enumerate(rel):
+                        others = rel[:k] + rel[k + 1:]
+                        if len(set(others)) == 1 and others[0] != 0 and r == -others[0]:
+                            findings.append((group[k], i, j, consts[k], [c for m, c in enumerate(consts) if m != k]))
+    # report each statement once
+    seen = set()
+    out = []
+    for f in findings:
+        if id(f[0]) not in seen:
+            seen.add(id(f[0]))
+            out.append(f)
+    return out
+
+
 def scan(index):
     """all inconsistencies of the repository: list of dict(module, cls, func, line, part, to, kept, expected, stmt)."""
     out = []
@@ -110,7 +158,19 @@ def scan(index):
                     # only the function's own blocks (nested functions are visited on their own)
                     for f in check_function_own(ch):
                         out.append({"module": m.name, "file": m.relpath, "cls": cls, "func": ch.name, "top": top, "line": f[6],
-                                    "part": f[2], "to": f[3], "kept": f[4], "expected": f[5], "stmt": ast.unparse(f[1])[:100]})
+                                    "part": f[2], "to": f[3], "kept": f[4], "expected": f[5], "stmt": ast.unparse(f[1])[:100], "kind": "COPY-1"})
+                    clone = ast.parse(ast.unparse(ch)).body[0]
+                    for sub in list(ast.walk(clone)):
+                        for fld in ("body", "orelse"):
+                            b = getattr(sub, fld, None)
+                            if isinstance(b, list) and sub is not clone:
+                                pass
+                    own = ast.parse(ast.unparse(ch)).body[0]
+                    own.body = [x for x in own.body if not isinstance(x, (ast.FunctionDef, ast.ClassDef))] or [ast.Pass()]
+                    for (stmt, i, j, mine, others) in check_constant_patterns(own):
+                        out.append({"module": m.name, "file": m.relpath, "cls": cls, "func": ch.name, "top": top,
+                                    "line": ch.lineno + getattr(stmt, "lineno", 1) - 1, "part": f"const#{i}<->#{j}", "to": "", "kept": ast.unparse(stmt.targets[0]) if isinstance(stmt, ast.Assign) else "?",
+                                    "expected": str(others[0]), "stmt": ast.unparse(stmt)[:100], "kind": "COPY-2", "mine": mine, "others": others})
                     visit(ch, cls, chain + [ch.name] if chain else [ch.name])
                 else:
                     visit(ch, cls, chain)
@@ -139,6 +199,10 @@ def report(res, index, wanted, rule="COPY-1"):
     hits = [f for f in scan(index) if wanted(f)]
     for f in hits:
         key = f"{f['cls'] + '.' if f['cls'] else ''}{f['top'] if f['top'] != f['func'] else f['func']}{'/' + f['func'] if f['top'] != f['func'] else ''}:{f['kept']}"
+        if f.get("kind") == "COPY-2":
+            res.bad("COPY-2", key, f"{f['file']}:{f['line']}", f"in the family of parallel statements around `{f['stmt']}` the integer indices {f['mine']} reverse an order "
+                    f"relation that all the other members share ({f['others']}): the operands of this member are swapped (sign error)")
+            continue
         res.bad(rule, key, f"{f['file']}:{f['line']}",
                 f"parallel statements are renamed inconsistently: in `{f['stmt']}` the part '{f['part']}' becomes '{f['to']}' elsewhere in the "
                 f"line but `{f['kept']}` was left (expected `{f['expected']}`): a copy-and-paste slip")
